@@ -60,6 +60,10 @@ def build(spec):
     p = Problem()
     p.spec = spec
     h, origin = gen.build_widths(spec['grid'])
+    if spec.get('shift') is not None:
+        # optional translation of the whole problem (e.g. to UTM-scale
+        # coordinates); sources and receivers below derive from the nodes
+        origin = origin + np.asarray(spec['shift'], float)
     p.grid = emg3d.TensorMesh(h, origin=origin)
     grid = p.grid
     freqs = sorted(float(f) for f in spec['freq'])
